@@ -94,7 +94,7 @@ Proof.
   split; [|rewrite Hmem; exact Hv].
   destruct (oc_write oc) as [[st an]|].
   - destruct (k_write k).
-    + rewrite aget_put_same. eexists. split; [reflexivity|]. cbn. rewrite Hw. exact Hs.
+    + rewrite aget_put_same. eexists. split; [reflexivity|]. cbn. rewrite (proj1 Hw). exact Hs.
     + exists o. split; [exact Eo|apply same_ips_refl].
   - exists o. split; [exact Eo|apply same_ips_refl].
 Qed.
